@@ -13,25 +13,29 @@ CASES = {"quick": 2500, "thorough": 80000}
 SOFT = 40
 HARD = 240
 EVAL_BUDGET = 2.5
-RULE = ("case = (grammar: zoo incl. grammars with quotes/backslashes/newlines/non-ASCII/'<'/'{'/'[' terminals, names with "
-        "'-' '_' digits upper case and reserved words, or random; constraint TEXT generated scope- and type-directed in "
+RULE = ("case = (grammar: zoo incl. grammars with quotes/backslashes/newlines/non-ASCII/'<'/'{'/'[' terminals, nonterminal names "
+        "with '-' '_' digits upper case and reserved words, or random; constraint TEXT generated scope- and type-directed in "
         "every surface form: S-expression / prefix / infix SMT notation with sort-correct terms over all operators of "
-        "ISLa's lexer, negative literals, omitted 'in start', 'in <T>', omitted variable names, free nonterminals (also "
-        "<start>), XPath ('.', '[i]', '..'), const declaration, match expressions with optionals and escaped characters, "
-        "numeric quantifiers, structural and semantic predicates with string and int arguments, implies/iff/xor, string "
-        "literals as \\u{..} / \\\" / raw non-ASCII / \\udddd, deliberately clashing variable names, comments; 5 closed "
-        "trees); oracle (round trip) = f1=parse(text); u1=unparse(f1) must not raise; parse(u1) must not raise; f2==f1 and "
-        "the harness' own structural comparison of f1 and f2; unparse(f2)==u1; evaluate(f1,t)==evaluate(f2,t) on the "
-        "trees; texts rejected with SyntaxError are not cases; non-trivial = accepted text that uses a free/unnamed "
-        "nonterminal, XPath, a match expression with an escaped character, a numeric quantifier, implies/iff/xor, a "
-        "string literal needing escaping, or prefix/infix SMT notation; distinct by hash of u1")
+        "ISLa's lexer (str.*, re.*, arithmetic, indexed re.loop/re.^), negative literals, omitted 'in start', 'in <T>', omitted "
+        "variable names, free nonterminals (also <start>), XPath ('.', '[i]', '..'), const declarations (also with another "
+        "constant name), match expressions with optionals and escaped characters, numeric quantifiers, structural and "
+        "semantic predicates with string and int arguments, implies/iff/xor, string literals as \\u{..} / \\\" / raw "
+        "control and non-ASCII characters / \\udddd / backslash sequences, deliberately clashing variable names, comments; "
+        "5 closed trees); oracle (round trip) = f1=parse(text); u1=unparse(f1) must not raise; f2=parse(u1) must not raise; "
+        "f2==f1 (both directions) and the harness' own structural comparison of f1 and f2 must agree; unparse(f2)==u1; "
+        "evaluate(f1,t)==evaluate(f2,t) on all trees whenever anything differs and on a sample otherwise; texts rejected "
+        "with SyntaxError are not cases (rate <= 10% enforced); non-trivial = accepted text that uses a free/unnamed "
+        "nonterminal, XPath, a match expression with an escaped character, a numeric quantifier, implies/iff/xor, a string "
+        "literal needing escaping, prefix/infix SMT notation, 'in <T>' or a const declaration; distinct by hash of u1")
 ASSUMPTIONS = ["only texts accepted by parse_isla are judged; a non-SyntaxError exception of the first parse is counted "
-               "(label parse1_crash:*) but belongs to C08",
+               "(label parse1_crash:*) but is a matter of C08, not of the round trip",
                "evaluate() is only used to compare f1 with f2 (same implementation on both sides); UNKNOWN/timeouts on either "
-               "side are not compared",
+               "side are not compared; when f1 and f2 are structurally identical only one case in four is evaluated (two trees)",
                "match-expression texts never contain '{', '[' or ']' in the generated TEXT (the match-expression lexer has no "
                "escape for them); they do occur in match expressions that the XPath translation builds",
-               "nonterminal names restricted to letters, digits, '-' and '_' (the property's stated domain)"]
+               "nonterminal names restricted to letters, digits, '-' and '_' (the property's stated domain)",
+               "a failure is attributed to an open finding by a shape of f1 (or by the relation between f1 and f2) and only at "
+               "the oracle stages that shape can explain; half of the cases are drawn clear of those shapes"]
 
 NONTRIVIAL = {"free_or_unnamed_nt", "omitted_name", "xpath", "mexpr_escaped_char", "numq", "conn:implies", "conn:iff",
               "conn:xor", "lit_escape", "smt_prefix", "smt_infix", "in_nonterminal", "const_decl"}
@@ -61,11 +65,24 @@ def generate(rnd, tier):
         forms = ("prefix", "sexpr")
     pr = P.Printer(rnd, forms=forms, layout=chance(rnd, 0.7))
     const = None
-    if chance(rnd, 0.04):
-        const = ("start", "<start>")
+    if chance(rnd, 0.06):
+        cname = "start"
+        if not sg.avoid_known and chance(rnd, 0.5):
+            # a constant of another name: omitted 'in' and free nonterminals then still refer to 'start' (open finding)
+            cname = pick(rnd, ["c", "root", "x-1", "_s", "S"])
+            f = rename_ref(f, "start", cname)
+        const = (cname, "<start>")
     text = pr.constraint(f, const)
     return {"gname": name, "grammar": g, "text": text, "trees": trees, "feats": sorted(pr.feats),
             "avoid_known": sg.avoid_known, "rseed": rnd.randint(0, 2 ** 31)}
+
+
+def rename_ref(x, old, new):
+    if isinstance(x, list):
+        if len(x) == 2 and x[0] == "v" and x[1] == old:
+            return ["v", new]
+        return [rename_ref(y, old, new) for y in x]
+    return x
 
 
 # ------------------------------------------------------------------ harness' own view of an ISLa formula
@@ -130,6 +147,7 @@ def causes(f):
     out = set()
     numvars = set()
     treevars = set()
+    types = {}
 
     def texts(be):
         """maximal runs of terminal text of a match expression (adjacent dummies joined), flag: inside optional"""
@@ -183,6 +201,7 @@ def causes(f):
                     out.add("reserved_var_name")
                 if not isinstance(v, L.DummyVariable):
                     treevars.add(v.name)
+                    types.setdefault(v.name, set()).add(v.n_type)
                     if v.n_type == L.Variable.NUMERIC_NTYPE:
                         out.add("numvar_name_clash")
             if x.bind_expression is not None:
@@ -209,12 +228,36 @@ def causes(f):
     go(f)
     if treevars & numvars:
         out.add("numvar_name_clash")
+    if any(len(ts) > 1 for ts in types.values()):
+        # two variables of one name but different types (in disjoint scopes)
+        out.add("var_name_two_types")
+    consts = {(v.name, v.n_type) for v in L.VariablesCollector.collect(f) if isinstance(v, L.Constant) and not v.is_numeric()}
+    if len(consts) > 1:
+        out.add("two_constants")
     return out
 
 
-CAUSE_ORDER = ["re_loop_app", "reserved_var_name", "numeric_var_bound_twice", "numvar_name_clash", "smt_symbols_inconsistent",
+CAUSE_ORDER = ["re_loop_app", "two_constants", "reserved_var_name", "numeric_var_bound_twice", "numvar_name_clash", "var_name_two_types", "smt_symbols_inconsistent",
                "mexpr_brace_bracket", "mexpr_quote_backslash", "smt_ite", "smt_str_lt", "smt_real_value", "smt_seq_unit", "smt_nested_not", "smt_distinct",
                "smt_root_not_compound", "smt_root_not_unstable"]
+
+
+ALL_STAGES = {"reparse_raises", "not_equal", "not_idempotent", "shape_differs", "eq_raises", "unparse2_raises",
+              "evaluate_differs"}
+# the stages of the oracle at which each shape can make the round trip fail; a failure at another stage is
+# not explained by the shape and is reported under the next matching shape or as 'other'
+PLAUSIBLE = {"re_loop_app": {"unparse_raises"}, "reserved_var_name": {"reparse_raises"}, "two_constants": ALL_STAGES,
+             "numeric_var_bound_twice": {"reparse_raises"}, "numvar_name_clash": ALL_STAGES, "var_name_two_types": ALL_STAGES,
+             "smt_symbols_inconsistent": ALL_STAGES, "mexpr_brace_bracket": ALL_STAGES,
+             "mexpr_quote_backslash": ALL_STAGES, "smt_ite": {"reparse_raises"}, "smt_str_lt": {"reparse_raises"},
+             "smt_real_value": {"reparse_raises"}, "smt_seq_unit": {"reparse_raises"}, "smt_nested_not": {"reparse_raises"},
+             "smt_distinct": {"reparse_raises"},
+             "smt_root_not_compound": {"not_equal", "not_idempotent", "evaluate_differs"},
+             "smt_root_not_unstable": {"not_equal", "not_idempotent", "evaluate_differs"}}
+
+
+def attribute(stage, cs):
+    return next((c for c in CAUSE_ORDER if c in cs and stage in PLAUSIBLE[c]), None)
 
 
 SEXPR_TOKEN = None
@@ -304,10 +347,9 @@ def round_trip(text, g, parse, unparse):
         CAUSE_ORDER), or a relation between f1 and f2 computed by the caller, or 'other'."""
         c = cause
         if c is None:
-            if stage == "unparse_raises":
-                c = "re_loop_app" if ("re_loop_app" in cs and ctype == "IndexError") else None
-            else:
-                c = next((x for x in CAUSE_ORDER if x in cs and x != "re_loop_app"), None)
+            c = attribute(stage, cs)
+            if stage == "unparse_raises" and ctype != "IndexError":
+                c = None
         sig = (c if c else "other") + "|" + stage + (":" + ctype if (ctype and not c) else "")
         viol.append(dict({"sig": sig, "text": text, "detail": detail, "causes": sorted(cs)}, **kw))
 
@@ -422,8 +464,7 @@ def judge(case):
                         counters["eval_flaky"] = counters.get("eval_flaky", 0) + 1
                         continue
                     kind = "verdict" if not (a.startswith("raises") or b.startswith("raises")) else "exception_one_side"
-                    cs = set(data["causes"])
-                    cause = next((c for c in CAUSE_ORDER[1:] if c in cs), None)
+                    cause = attribute("evaluate_differs", set(data["causes"]))
                     viol.append({"sig": "%s|evaluate_differs:%s" % (cause or "other", kind), "text": text, "u1": u1,
                                  "string": rt.tyield(t), "f1": a, "f2": b})
                     break
